@@ -1112,7 +1112,7 @@ FIELD_LEVELS = [
     ("cnadj", {"curve_number_adj": True, "curve_number_adj_pct": 20}, "same"),
     ("fallowbunds", None, {"bunds": True, "z_bund": 0.08, "bund_water": 10}),
 ]
-GW_LEVELS = ["none", "c2.66", "c1.2", "c0.6", "c0.25", "vdeepshallow", "vshallow", "cstep", "c7"]
+GW_LEVELS = ["none", "c2.66", "c1.2", "c0.6", "c0.25", "vdeepshallow", "vshallow", "cstep", "c7", "voutside"]
 IWC_LEVELS = ["FC", "WP", "SAT", ("Pct", 50), ("PctDepth", [0.3, 1.0], [30, 80]),
               ("NumLayer", [0.25, 0.6, 0.4])]
 WX_LEVELS = [{"kind": "tunis"}, {"kind": "champion"}, {"kind": "syn", "pattern": "storm"},
@@ -1157,6 +1157,10 @@ def _gw_spec(level, start, end):
     if level == "vshallow":
         return {"label": "var1-0.2", "method": "Variable", "dates": [fmt(s), fmt(mid1), fmt(e)],
                 "values": [1.0, 0.2, 1.4]}
+    if level == "voutside":
+        # observations before the first and after the last simulated day (interpolated in time across the window)
+        return {"label": "varout1.2-0.4", "method": "Variable", "dates": [fmt(s - pd.Timedelta(days=61)), fmt(mid1), fmt(e + pd.Timedelta(days=45))],
+                "values": [1.2, 0.4, 2.2]}
     if level == "cstep":
         return {"label": "step2-0.8", "method": "Constant", "dates": [fmt(s), fmt(mid1), fmt(mid2)],
                 "values": [2.0, 0.8, 1.5]}
@@ -1233,6 +1237,12 @@ def anchors(rng, wseed):
     # season cut short by an explicit latest harvest date (before maturity), off-season simulated, daily irrigation
     add("Maize", "Loam", IRR_LEVELS[11], fld["plain"], "none", "FC", {"kind": "champion"}, True, 2, 10)
     A[-1]["crop_kw"] = {"harvest_date": "08/15"}
+    # degree-day methods 1 and 2 (36 of the 37 built-in crops use method 3) on weather with cold days
+    add("MaizeChampionGDD", "SandyLoam", IRR_LEVELS[0], fld["plain"], "none", "FC", {"kind": "champion"}, False, 6, 0)   # six springs: cold days after planting
+    add("Maize", "SandyLoam", IRR_LEVELS[0], fld["plain"], "none", "FC", {"kind": "champion"}, False, 6, 0)
+    A[-1]["crop_kw"] = {"GDDmethod": 2}
+    add("Wheat", "Loam", IRR_LEVELS[0], fld["plain"], "none", "FC", {"kind": "tunis"}, False, 1, 0)
+    A[-1]["crop_kw"] = {"GDDmethod": 1}
     return A
 
 
